@@ -1044,7 +1044,10 @@ def verdict (prop : List Char) (a b : List Tok) : Nat :=
     | some x, some y => boolV (sameCodePoints x y)
     | some _, none => 0
     | none, _ => 2
-  else if prop == "background-position".toList then layersCmp position a b
+  else if prop == "background-position".toList then
+    -- an offset that is a function is compared in normal form (its arguments are minified like any other value)
+    let nf := fun (t : Tok) => if t.tt == .function then normTok [] t else t
+    layersCmp position (a.map nf) (b.map nf)
   else if prop == "background-size".toList then layersCmp bgSize na nb
   else if prop == "background-repeat".toList then layersCmp bgRepeat a b
   else if prop == "box-shadow".toList then
